@@ -7,7 +7,7 @@
    declared footprints and that asyncio eventually runs every enabled step are assumptions,
    exercised by the schedule exploration of the check (with the linearizability oracle
    Model/Linear.v over the sequential model of C01-C05). *)
-From Asimap Require Import Base.Res Model.Sched Proofs.SchedP.
+From Asimap Require Import Base.Res Spec.SetSem Model.Mbox Model.Sched Model.Phases Proofs.MboxInv Proofs.MboxOut Proofs.SchedP Proofs.PhasesP Proofs.PhasesTie.
 Open Scope Z_scope.
 
 Theorem C10_conflict_sound : forall running deleted c r delr,
@@ -47,6 +47,43 @@ Theorem C10_command_scripts_obey : forall m src dst,
   script_ok false (script_move src dst) = true.
 Proof. exact scripts_ok. Qed.
 Print Assumptions C10_command_scripts_obey.
+
+(* FETCH, STORE and SEARCH as the two steps they are (Model/Phases.v): arrival - the gate on the notification queue - and,
+   after the management task has let the command through, execution with the gate repeated.  Between the two steps of
+   one session ANY events of other sessions may take place (whole commands, arrivals, executions, deliveries, polls). *)
+(* every world reachable by any interleaving satisfies the structural invariant: each session's replayed view is legal
+   and what it was sent plus what is queued for it is the server's list (C01's invariant, now under concurrency) *)
+Theorem C10_any_interleaving_keeps_invariant : forall a b c (es : list event), winv (fst (ev_run (init_world a b c) es)).
+Proof. exact ev_reachable_inv. Qed.
+Print Assumptions C10_any_interleaving_keeps_invariant.
+(* ... and in every such world neither half of a non-UID FETCH/STORE/SEARCH sends its session an EXPUNGE *)
+Theorem C10_no_expunge_in_any_interleaving : forall a b c es s cmd,
+  p_uid cmd = false ->
+  let w := fst (ev_run (init_world a b c) es) in
+  clean_for s (snd (ev_step w (EArrive s cmd))) /\ clean_for s (snd (ev_step w (EExecute s cmd))).
+Proof. exact no_expunge_in_any_interleaving. Qed.
+Print Assumptions C10_no_expunge_in_any_interleaving.
+(* the numbers an executing command is about to resolve are numbers of the list its client has been told about *)
+Theorem C10_executes_on_the_known_list : forall b s u b1 o1,
+  boxinv b -> gate (fst (resync b)) s u true = Some (b1, o1) -> all_s (fun c => c_view c = uids b1) b1 s.
+Proof. exact execute_synced. Qed.
+Print Assumptions C10_executes_on_the_known_list.
+(* the atomic commands of the sequential model (C01-C05) are the two-step commands with nothing in between *)
+Theorem C10_atomic_is_arrive_then_execute : forall w s c,
+  winv w ->
+  snd (step w (to_op s c)) = (let '(w1, o1, go) := arrive w s c in if go then o1 ++ snd (execute w1 s c) else o1).
+Proof. exact step_is_arrive_then_execute. Qed.
+Print Assumptions C10_atomic_is_arrive_then_execute.
+(* sharpness: the history that made the second gate necessary.  Gated: refused, view legal.  Ungated (the code before
+   commit 1902352): "* 2 FETCH" for UID 3 at a position the client knows as UID 2, an EXPUNGE inside a non-UID FETCH *)
+Example C10_example_gate_after_waiting :
+  snd (execute ex_world 1 ex_cmd) = [(1, RNo)] /\ views (fst (execute ex_world 1 ex_cmd)) = [(1, true, [1; 2; 3]); (2, true, [1; 3])].
+Proof. exact gated_refuses. Qed.
+Example C10_refuted_without_second_gate :
+  exists r g, In (1, RFetch 2 r None g) (snd (execute_gen false ex_world 1 ex_cmd)) /\ g = 3 /\
+              In (1, RExpunge 2) (snd (execute_gen false ex_world 1 ex_cmd)) /\
+              existsb (fun v => negb (snd (fst v))) (views (fst (execute_gen false ex_world 1 ex_cmd))) = true.
+Proof. exact ungated_desynchronises. Qed.
 
 (* non-vacuity / sharpness: the asymmetric case of the admission relation, and the deadlock that the
    discipline excludes *)
